@@ -184,6 +184,7 @@ fn c03_case(ctx: &mut Ctx, rng: &mut Rng, i: u64) {
     let mut cfg = cfg;
     cfg.route.via_clone = rng.chance(200);
     cfg.route.time_first = rng.chance(500);
+    cfg.route.free_std = if rng.chance(120) { rng.range(1, 7) as u8 } else { 0 };
     // one chain in six reads through read_string(): each piece is then the lossy decoding of the bytes of that read
     cfg.route.text_chain = cfg.entry == Entry::Start && rng.chance(170);
     let x = comm::exchange(ctx, &cfg);
@@ -460,6 +461,7 @@ fn c04_case(ctx: &mut Ctx, rng: &mut Rng, i: u64) {
     let mut cfg = cfg;
     cfg.route.time_first = rng.chance(500);
     cfg.route.via_clone = rng.chance(150);
+    cfg.route.free_std = if rng.chance(120) { rng.range(1, 7) as u8 } else { 0 };
     let x = comm::exchange(ctx, &cfg);
     let w = |extra: J| describe(&cfg, kind).set("reads", reads_json(&x)).set("child_report", J::arr_s(&x.report)).set("events_tail", J::arr_s(&ilog::fmt_tail(&x.events, 14))).set("detail", extra);
     ctx.count("read_chains", 1);
